@@ -9,7 +9,7 @@ open _root_.Corpus
   cid      0 = pub, n ≥ 1 = other n
   file     null | [size, cid, mtime]
   off      null | ["complete", size, cid, 0, mtime] | ["torn", size, cid, bytes, mtime] | ["junk", tag, 0, 0, mtime]
-  fs       {doc, arch, tmp, off, clock}
+  fs       {doc, arch, tmp, off, offtmp, clock}
   attempt  ["connect"] | ["resp", status, cl|null, cid, [chunks], "clean"|"protocol"|"timeout"]
   world    {dsize, asize, lines:[[cid,size,n]], dc:[[cid,size,outcome]], tbl:[[cid,size,[n…]]], undecodable:[[cid,size]]}
   outcome  {open_fails, hits_doc, ext: null|[n, ok], cid, chunks, fails, wrapped, mtime: null|n}
@@ -55,7 +55,7 @@ def getOff (j : Json) (k : String) : Except String (Option OffFile) :=
     | _ => throw s!"bad offset kind {kind}"
 
 def getFS (j : Json) : Except String FS := do
-  return ⟨← getFile j "doc", ← getFile j "arch", ← getFile j "tmp", ← getOff j "off", ← getNat j "clock"⟩
+  return ⟨← getFile j "doc", ← getFile j "arch", ← getFile j "tmp", ← getOff j "off", ← getOff j "offtmp", ← getNat j "clock"⟩
 
 def fileJ : Option File → Json
   | none => Json.null
@@ -68,7 +68,7 @@ def offJ : Option OffFile → Json
   | some ⟨.junk t, m⟩ => arr [Json.str "junk", toJson t, toJson (0 : Nat), toJson (0 : Nat), toJson m]
 
 def fsJ (fs : FS) : Json :=
-  Json.mkObj [("doc", fileJ fs.doc), ("arch", fileJ fs.arch), ("tmp", fileJ fs.tmp), ("off", offJ fs.off), ("clock", toJson fs.clock)]
+  Json.mkObj [("doc", fileJ fs.doc), ("arch", fileJ fs.arch), ("tmp", fileJ fs.tmp), ("off", offJ fs.off), ("offtmp", offJ fs.offTmp), ("clock", toJson fs.clock)]
 
 def getSpec (j : Json) : Except String Spec := do
   return ⟨← getBool j "has_archive", ← getOptNat j "csize", ← getOptNat j "usize", ← getNat j "nlines",
